@@ -12,6 +12,7 @@ import (
 
 	remoteexecution "github.com/bazelbuild/remote-apis/build/bazel/remote/execution/v2"
 	"github.com/buildbarn/bb-storage/pkg/blobstore/buffer"
+	"github.com/buildbarn/bb-storage/pkg/blobstore/local"
 	"github.com/buildbarn/bb-storage/pkg/blobstore/slicing"
 	"github.com/buildbarn/bb-storage/pkg/digest"
 	"github.com/buildbarn/bb-storage/pkg/verifshim/vsched"
@@ -229,4 +230,20 @@ func (s *Store) StepSyncers(ctx context.Context, max int) int {
 		}
 	}
 	return n
+}
+
+// NeedsRefresh reports (without touching) whether the object currently lies in an old block.
+func (s *Store) NeedsRefresh(d digest.Digest) bool {
+	s.Lock.RLock()
+	defer s.Lock.RUnlock()
+	kf := digest.KeyWithoutInstance
+	if s.Geo.AC || s.Geo.Hierarchical {
+		kf = digest.KeyWithInstance
+	}
+	loc, err := s.KLM.Get(local.NewKeyFromString(d.GetKey(kf)))
+	if err != nil {
+		return false
+	}
+	_, nr := s.LBM.Get(loc)
+	return nr
 }
